@@ -1,6 +1,7 @@
 import Pandora.Drv.Util
 import Pandora.Spec.C20
 import Pandora.Model.C20Net
+import Pandora.Model.C20Feed
 
 namespace Pandora.Drv.C20
 open Pandora.Drv Pandora.Model.C20 Pandora.Model.C20Conc Pandora.Spec.C20
@@ -28,12 +29,38 @@ def lineOf (omitEmpty : Bool) (e : Entry) : Line :=
     md := if omitEmpty && e.md.isEmpty then none else some e.md,
     payload := if omitEmpty && e.payload.isEmpty then none else some e.payload }
 
-/-- the ammo objects the provider delivers for the lines of a file, through the model of `grpcjson.decodeAmmo`: every
-line is delivered in an object that still holds the PREVIOUS line's content (the worst the pool can do) -/
-def deliver (omitEmpty : Bool) (es : List Entry) : List Entry :=
-  (es.foldl (fun (st : Entry × List Entry) e =>
-    let cur := decodeAmmo st.1 (lineOf omitEmpty e)
-    (cur, cur :: st.2)) (zeroEntry, [])).2.reverse
+/-- an upper bound of the length of the JSON line the harness writes for an entry (JSON escaping counted per byte)
+and the length of its longest single text (a lower bound of the line's length) -/
+def lineBounds (e : Entry) : Nat × Nat :=
+  let texts : List String := [e.tag, e.call] ++ e.md.flatMap (fun (k, v) => [k, v]) ++
+    e.payload.flatMap (fun (k, v) => [k, match v with | .s t => t | .n t => t | .f t => t | .b t => t | _ => ""])
+  let cost := fun (c : Char) => if c = '"' || c = '\\' then 2 else if c = '<' || c = '>' || c = '&' || c.toNat < 32 || c.toNat ≥ 127 then 6 else 1
+  let total := texts.foldl (fun a t => t.toList.foldl (fun b c => b + cost c) a) 0
+  let longest := texts.foldl (fun a t => max a t.length) 0
+  (total + 200 + 16 * texts.length, longest)
+
+/-- the lines of the ammo file as the provider's scanner and decoder see them: `!<k>` is a line that cannot be decoded;
+a line certainly longer than the scanner's buffer (`mas`, 64 KiB by default) is `long`; `none` = a line whose length
+is too close to the buffer's for the model to tell -/
+def rawsOf (omitEmpty : Bool) (mas : Nat) (toks : List String) : Option (List Raw) :=
+  let maxTok := if mas == 0 then 65536 else mas
+  toks.mapM fun tok =>
+    if tok.startsWith "!" then some Raw.bad else
+    let e := parseEntry tok
+    let (upper, longest) := lineBounds e
+    if longest ≥ maxTok then some Raw.long
+    else if upper < maxTok then some (Raw.line (lineOf omitEmpty e))
+    else none
+
+def provCfgOf (kv : List (String × String)) : ProvCfg :=
+  { passes := (getN? kv "pas").getD 1, limit := (getN? kv "lim").getD 0,
+    chosen := (splitList (getS kv "cc")).map dec, coe := getS kv "coe" == "1" }
+
+/-- the shared client pool's effective size: `sc` clients when `sc > 0` (the harness enables the pool), `sce=1` enables
+it whatever `sc` says -/
+def clientsOf (kv : List (String × String)) : Nat :=
+  let sc : Int := (getS kv "sc").toInt?.getD 0
+  effClients (sc > 0 || getS kv "sce" == "1") sc
 
 def parseCall (c : String) : CallDef :=
   let p := c.splitOn "|"
@@ -42,7 +69,8 @@ def parseCall (c : String) : CallDef :=
     payload := (parsePairs (nth p 3)).map fun (k, v) =>
       let (kind, body) := cut v '.'
       (dec k, kind, parseTmpl (dec body)),
-    pre := nth p 4 == "u" }
+    pre := nth p 4 == "u",
+    assert := if (nth p 5).startsWith "a" then (String.ofList ((nth p 5).toList.drop 1)).toNat?.getD 0 else 0 }
 
 /-- `sleep<ms>`: the scenario's `sleep(ms)` pseudo request — time only, nothing on the wire -/
 def isSleep (r : String) : Bool :=
@@ -53,6 +81,8 @@ def parseScn (s : String) : ScenDef :=
   { name := nth p 0, weight := (nth p 1).toNat?.getD 0,
     reqs := ((splitList (nth p 2) "+").filter (fun r => !isSleep r)).flatMap fun r =>
       let (name, cnt) := cut r '*'
+      -- `name*cnt_ms`: the three-part form name(cnt, sleep): the sleep is time only
+      let cnt := (cut cnt '_').1
       List.replicate (if cnt.isEmpty then 1 else cnt.toNat?.getD 1) name }
 
 /-- configured timeout in ms: `tmoms=` if present, else `tmo=` seconds -/
@@ -65,7 +95,8 @@ def parseCfg (kv : List (String × String)) : Cfg :=
   { tmo := parseTmo kv,
     users := (splitList (getS kv "users")).map dec,
     g := dec (getS kv "g"),
-    calls := (splitList (getS kv "calls") ";").map parseCall,
+    -- the provider's registry keeps the LAST definition of a name (`C20_registry`)
+    calls := registry ((splitList (getS kv "calls") ";").map parseCall),
     scns := (splitList (getS kv "scns") ";").map parseScn }
 
 def parseSched (s : String) : List Nat := s.toList.map fun c => c.toNat - 48
@@ -119,28 +150,39 @@ def handleCore : Handler := fun input impl =>
   match getS kv "mode" with
   | "table" => (tableText, if impl == tableText then "ok" else "fail:method-table:the reflected method table differs from the model's")
   | "json" =>
-    let es := deliver (getS kv "oe" == "1") ((splitList (getS kv "e") ";").map parseEntry)
+    let cfg := provCfgOf kv
+    if cfg.passes == 0 && cfg.limit == 0 then ("-", "skip:unbounded-feed") else
+    match rawsOf (getS kv "oe" == "1") ((getN? kv "mas").getD 0) (splitList (getS kv "e") ";") with
+    | none => ("-", "skip:line-length-near-the-buffer")
+    | some raws =>
+    -- model: the provider's reading loop (passes, limit, chosen cases, continueonerror), every line decoded into a pooled
+    -- object that still holds the previously delivered ammo
+    let (es, stop) := feed cfg raws
     if hasOther es || hasOddNumeric es then ("-", "skip:unmodelled-value") else
     if hasDupKeys es then ("-", "skip:duplicate-keys") else
     let tmo := parseTmo kv
+    let sc := clientsOf kv
     if getS kv "run" == "sched" then
       let n := (getN? kv "n").getD 1
-      let sc := (getN? kv "sc").getD 0
       let sched := parseSched (getS kv "sched")
       if sched.any (· ≥ n) then ("-", "skip:bad-schedule") else
       -- model: the pool of n instances bound the way `Bind` does it, entry k fired by instance sched[k]
       let (_, tr) := runPool tmo (initPool n sc) sched es
-      let modelObs := traceText (tr.map fun (g, _, o) => (g, o)) ++ " conns=" ++ toString (connsUsed tr)
-      (modelObs, judgeTrace (expectedJsonSched tmo sched es) impl)
+      let outOfAmmo := sched.length > es.length
+      let modelObs := traceText (tr.map fun (g, _, o) => (g, o)) ++
+        (if outOfAmmo then (if tr.isEmpty then "out-of-ammo" else ";out-of-ammo") else "") ++
+        " conns=" ++ toString (connsUsed tr) ++ (if outOfAmmo then " perr=" ++ stopText stop else "")
+      -- spec: the stateless description of the feed when the provider runs to its end, else the model's
+      (modelObs, judgeFeedTrace (expectedJsonSched tmo sched (specFeed cfg raws es)) outOfAmmo (stopText stop) impl)
     else
+    if stop != Stop.none then ("-", "skip:provider-stops-under-the-engine") else
     -- model: every instance fires its share one entry at a time; the multiset does not depend on the split
     let (_, outs) := shootAll tmo { shots := 0 } es
     let (mc, ms) := multisetText outs
-    let exp := expectedEntries tmo es
+    let exp := expectedEntries tmo (specFeed cfg raws es)
     ("run=- calls=" ++ mc ++ " samples=" ++ ms, judgeMultiset (exp.flatMap (·.calls)) (exp.flatMap (·.samples)) impl)
   | "scen" =>
     let c := parseCfg kv
-    if !(namesDistinct c.calls) then ("-", "skip:duplicate-call-names") else
     if !(c.users.all plainText && plainText c.g) then ("-", "skip:unmodelled-variable-text") else
     if getS kv "run" == "engine" then
       ("-", judgeEngineScen c ((getN? kv "n").getD 1) ((getN? kv "shots").getD 0) impl)
@@ -166,7 +208,7 @@ client pool of `sc`, every entry fired by the scheduled instance through that in
 def modelStray (kv : List (String × String)) : Nat :=
   let net : Net := { target := "127.0.0.1:1", reflectPort := 2 }
   let n := (getN? kv "n").getD 1
-  let sc := if getS kv "mode" == "json" then (getN? kv "sc").getD 0 else 0
+  let sc := if getS kv "mode" == "json" then clientsOf kv else 0
   let es := (splitList (getS kv "e") ";").map parseEntry
   let sched := if getS kv "run" == "sched" then parseSched (getS kv "sched") else es.map fun _ => 0
   strayCalls net sc (runPool (parseTmo kv) (initPool n sc) sched es).2
